@@ -776,6 +776,14 @@ class Emitter:
             # uninterpreted (functionally consistent) symbol; by default the macro is the C operator
             self.cur['externs'].add('AVM_FOP')
             return 'AVM_%s_%s(%s, %s)' % ({'*': 'FMUL', '/': 'FDIV', '+': 'FADD', '-': 'FSUB'}[op], 'f32' if T == 'float' else 'f64', self.E(a), self.E(b))
+        if op == '*' and T == 'unsigned __int128':
+            self.cur['externs'].add('AVM_MUL')
+            return 'AVM_MUL_u128(%s, %s)' % (self.E(a), self.E(b))
+        if op == '*' and T in DIVT:
+            # integer multiplication through a macro (default: the C operator): lets a code-level proof treat the multiplier
+            # as an uninterpreted, functionally consistent operation
+            self.cur['externs'].add('AVM_MUL')
+            return 'AVM_MUL_%s(%s, %s)' % (DIVT[T], self.E(a), self.E(b))
         if op in ('/', '%') and T in DIVT:
             # integer division goes through a macro so that a TU can treat the divide instruction as an uninterpreted
             # (functionally consistent) operation; by default the macro is the C operator itself
